@@ -192,7 +192,7 @@ def run(check, mirror, tier):
     with open(mirror.path("server/src/server.rs"), "a") as f:
         f.write('\n#[cfg(dmntk_verif_srv)]\n#[path = "%s"]\npub mod verif_srv;\n' % os.path.join(VERIF, "engines/shims/server_ops.rs"))
     with open(mirror.path("server/src/lib.rs"), "a") as f:
-        f.write('\n#[cfg(dmntk_verif_srv)]\npub use server::verif_srv::verif_server_ops;\n')
+        f.write('\n#[cfg(dmntk_verif_srv)]\npub use server::verif_srv::{verif_server_ops, verif_tck};\n')
     rb = replay_build(mirror)
     rb_srv = replay_build(mirror, extra_cfg="--cfg dmntk_verif_ws --cfg dmntk_verif_srv", crate="replay_server", binary="dmntk-replay-server")
     crate = MirCrate(mirror, ["feel"], overflow_checks=True, enum_crates=("common", "feel-number", "feel"))
@@ -346,6 +346,7 @@ def run(check, mirror, tier):
         mk_kind(kind)
     from checks import C18_handlers
     C18_handlers.jobs_for(check, mirror, rb_srv, jobs)
+    C18_handlers.tck_jobs(check, mirror, MirCrate(mirror, ["server"], overflow_checks=True, enum_crates=("common", "feel", "model", "workspace")), U, jobs, rb_srv)
     run_parallel(check, jobs)
 
 
